@@ -3583,11 +3583,15 @@ def split_tie(ctx, fcases):
         ctx.evaluations += 1
         ctx.count("split_patches")
         # model only: on how many versions the hypothesis of elision_recorded_where_its_dots_stand (AugsOK) holds / fails
-        mh = re.search(r" \(hyp (\d+) (\d+)\)\)$", b)
+        # and on how many the hypothesis on go/scanner's tokens alone (ScanOK), from which find_augs_ok proves it
+        mh = re.search(r" \(hyp (\d+) (\d+) (\d+) (\d+)\)\)$", b)
         if mh:
             ctx.count("split_versions_augs_in_order", int(mh.group(1)))
             if int(mh.group(2)):
                 ctx.count("split_versions_augs_not_in_order", int(mh.group(2)))
+            ctx.count("split_versions_scanner_tokens_as_assumed", int(mh.group(3)))
+            if int(mh.group(4)):
+                ctx.count("split_versions_scanner_tokens_not_as_assumed", int(mh.group(4)))
             b = b[:mh.start()] + ")"
         if a.endswith(" (splitunavailable))"):
             a = a[:-len(" (splitunavailable))")] + ")"
